@@ -70,7 +70,7 @@ func HC15_Reset() {
 			rec.n = 0
 			before := x.snap()
 			wasReset := false
-			if s == 0 {
+			if s == 0 && c == 0 {
 				if vChoice("family", 2) == 0 {
 					x.cacheStep(vChoice("op", 2), &cf1, b1.f, f1, t1)
 				} else {
